@@ -140,3 +140,30 @@ pub const ALL_PROTOS: [u8; 4] = [PROTO_ICMP, PROTO_ICMP6, PROTO_TCP, PROTO_UDP];
 pub fn is_v6_dgram(b: &[u8]) -> bool {
     !b.is_empty() && b[0] >> 4 == 6 && Ip6::parse(b).is_ok()
 }
+
+/// Installs an adversary that answers some UDP / TCP probes with an ICMP echo reply (identifier 0
+/// = "any", or the tracer's own) naming the sequence of the probe just sent: an echo reply is
+/// never the response to a UDP or TCP probe.
+pub fn install_echo_adversary(world: &std::sync::Arc<crate::world::World>, tcfg: &TraceCfg, one_in: u64) {
+    if tcfg.protocol == trippy_core::Protocol::Icmp {
+        return;
+    }
+    let (host4, host6) = {
+        let w = world.inner.lock().unwrap();
+        (w.cfg.host_v4, w.cfg.host_v6)
+    };
+    let tc = tcfg.clone();
+    let v6 = tc.target.is_ipv6();
+    let target = tc.target;
+    world.inner.lock().unwrap().inject_on_send.push(Box::new(move |wp, r| {
+        let mut out = Vec::new();
+        if !r.chance(1, one_in) {
+            return out;
+        }
+        let Some(seq) = get_sequence(&tc, &wp.bytes) else { return out };
+        let id = if r.chance(1, 2) { 0 } else { tc.trace_id };
+        let bytes = echo_reply(v6, target, host4, host6, id, seq, 8);
+        out.push(injected(r.range(1_000, 400_000), v6, bytes, target, PktClass::Forged(crate::world::Forgery::OtherProto)));
+        out
+    }));
+}
